@@ -82,12 +82,15 @@ PROPS["C11"] = dict(
 )
 
 PROPS["C12"] = dict(
-    modules=["Proofs.C12"],
-    theorems=["Goflow.C12.reset_total", "Goflow.C12.pool_independent", "Goflow.C12.sflow_stateless"],
+    modules=["Proofs.C12", "Proofs.C12Pool"],
+    theorems=["Goflow.C12.reset_total", "Goflow.C12.pool_independent", "Goflow.C12.sflow_stateless",
+              "Goflow.C12Pool.decodeFlowP_eq", "Goflow.C12Pool.sent_formatter", "Goflow.C12Pool.history_pool_free",
+              "Goflow.C12Pool.pool_content_irrelevant", "Goflow.C12Pool.take_plain", "Goflow.C12Pool.leak_without_reset",
+              "Goflow.C12Pool.state_inventory"],
     generators=[dict(name="C12", quick=60, thorough=4000)],
     harness=["impl"],
     confirm_alone=True,
-    level_text="Theorems: reset_total, pool_independent (the messages of a datagram are a function of the datagram, the receive metadata, the configuration and the exporter's templates and rates only), sflow_stateless. The model has no pool; histories with pool poisoning, half-failed datagrams and custom fields printed as JSON / text are the tie, and a differing stateless datagram is re-run alone in a fresh process.",
+    level_text="Theorems: reset_total, pool_independent (the messages of a datagram are a function of the datagram, the receive metadata, the configuration and the exporter's templates and rates only), sflow_stateless; with the message pool inside the model (Goflow/Pool.lean: sync.Pool with arbitrary content, an oracle for every Get, Reset, the converters writing into the message they are given, Produce's stamps, the deferred Commit): history_pool_free — for every history, every initial pool and every oracle the outputs equal those of the pool-less model; leak_without_reset shows the Reset carries it; state_inventory ties the model's inventory of what outlives a datagram (members of the pooled message, Get / Put sites with the statement after each Get, FlowMessage.Reset, fields of pipes / producer / template and sampling systems, package-level variables) to the source on every run. Histories with pool poisoning, half-failed datagrams and custom fields printed as JSON / text are the tie, and a differing stateless datagram is re-run alone in a fresh process.",
 )
 
 PROPS["C13"] = dict(
